@@ -57,11 +57,13 @@ struct Outcome {
   std::string reqs;          // rendering of the request sequence
   int nreq = 0;
   bool fail = false, over = false, noprogress = false;
+  bool stuck = false;        // parse() delivered a request while consuming nothing: onTcpReceived's loop would parse the very same bytes again, for ever
+  bool under = false;        // a delivered request consumed fewer bytes than its own body + blank line: bytes it was built from are presented (and interpreted) again
   bool declared = true;      // every request delivered carries a Content-Length header equal to the length of the body delivered
   std::string exc;           // non-empty: exception class/what (+ context)
   size_t rest = 0;
   std::string str() const {
-    std::string s = reqs; if (fail) s += " FAIL"; if (over) s += " OVERCONSUME"; if (noprogress) s += " NO-PROGRESS";
+    std::string s = reqs; if (fail) s += " FAIL"; if (over) s += " OVERCONSUME"; if (noprogress) s += " NO-PROGRESS"; if (stuck) s += " REQUEST-DELIVERED-NOTHING-CONSUMED(endless loop in the server)"; if (under) s += " REQUEST-CONSUMED-LESS-THAN-ITS-BODY";
     if (!exc.empty()) s += " EXC:" + exc; s += " rest=" + std::to_string(rest); return s; }
 };
 static volatile long g_parse_calls = 0; static volatile size_t g_tostring_bytes = 0;
@@ -93,7 +95,7 @@ static Outcome feed(const std::string &data, const size_t *cuts, int ncuts) {
   set_cur(data, cuts, ncuts);
   Outcome o; util::Buffer buff(0); RequestParser p;
   try {
-    size_t from = 0;
+    size_t from = 0, consumed = 0;      // consumed = bytes taken since the last delivered request
     for (int s = 0; s <= ncuts && !o.fail; s++) {
       size_t to = s < ncuts ? cuts[s] : data.size();
       buff.append(data.data() + from, to - from); from = to;
@@ -107,9 +109,12 @@ static Outcome feed(const std::string &data, const size_t *cuts, int ncuts) {
         size_t r = p.parse(exact.get(), given); g_parse_calls++;
         exact.reset();
         if (r > given) { o.over = true; o.rest = given; return o; }
-        buff.hasRead(r);
+        buff.hasRead(r); consumed += r;
         if (p.state() == RequestParser::State::kFinishedAll) {
           Request *q = p.getRequest(); o.reqs += render(*q); o.nreq++;
+          if (r == 0) { o.stuck = true; o.rest = buff.readableSize(); delete q; return o; }      // step bound of the feed loop: no progress possible from here
+          if (consumed < q->body.size() + 4) o.under = true;
+          consumed = 0;
           auto cl = q->headers.find("Content-Length"); if (cl == q->headers.end() || cl->second != std::to_string(q->body.size())) o.declared = false;
           g_tostring_bytes += q->toString().size();      // what the server's context log evaluates for every request (setContextLogEnable): must not crash either
           delete q; }
@@ -215,6 +220,8 @@ static void check_split(const Stream &st, const Outcome &whole, const std::strin
   Outcome o = feed(st.data, cuts, ncuts);
   if (o.over) { viol("parser-returns-more-than-given", case_text(st.data, cuts, ncuts)); return; }
   if (o.noprogress) { viol("parser-feed-loop-makes-no-progress", case_text(st.data, cuts, ncuts)); return; }
+  if (o.stuck) { viol("parser-delivers-request-consuming-nothing-server-loop-never-ends", case_text(st.data, cuts, ncuts) + " => " + o.str()); return; }
+  if (o.under) { viol("parser-delivers-request-consuming-less-than-its-body", case_text(st.data, cuts, ncuts) + " => " + o.str()); return; }
   if (!o.exc.empty()) { viol(exc_sig(o.exc) + "-on-split-stream", case_text(st.data, cuts, ncuts) + " => " + o.str()); return; }
   if (o.reqs == whole.reqs && o.fail == whole.fail && o.rest == whole.rest) return;
   g_split_diff++;
@@ -315,17 +322,19 @@ static long g_mut_compared = 0, g_mut_wellformed = 0;
 static void total_check(const char *mode, const std::string &data, const size_t *cuts, int ncuts, long &execs, const Outcome *whole = nullptr) {
   execs++;
   Outcome o = feed(data, cuts, ncuts);
-  if (whole && ncuts > 0 && o.exc.empty() && !o.over && !o.noprogress) {
+  if (whole && ncuts > 0 && o.exc.empty() && !o.over && !o.noprogress && !o.stuck) {
     g_mut_compared++;
-    if (o.reqs != whole->reqs || o.fail != whole->fail || o.rest != whole->rest) {
+    if (o.reqs != whole->reqs || o.fail != whole->fail || (!o.fail && o.rest != whole->rest)) {      // after a parse failure the connection is dropped: what was left unread is no outcome
       std::string m = mode; size_t b = m.find('['), e = m.find_first_of("=+]", b == std::string::npos ? 0 : b);      // mut[content-length-value=05+valid...] -> content-length-value
       std::string what = b == std::string::npos ? m : m.substr(b + 1, e - b - 1);
-      std::string sig = std::string(o.fail && !whole->fail ? "parser-split-fails-on-accepted-request-" : "parser-split-changes-request-sequence-of-accepted-request-") + what;
+      std::string sig = std::string(!whole->declared || whole->fail || !whole->nreq ? "parser-split-changes-outcome-of-hostile-length-" : o.fail && !whole->fail ? "parser-split-fails-on-accepted-request-" : "parser-split-changes-request-sequence-of-accepted-request-") + what;
       if (!viol_counted(sig)) viol(sig, std::string(mode) + " " + case_text(data, cuts, ncuts) + " => split: " + o.str() + " ;; unsplit: " + whole->str());
     }
   }
   if (o.over) viol("parser-returns-more-than-given", std::string(mode) + " " + case_text(data, cuts, ncuts));
   if (o.noprogress) viol("parser-feed-loop-makes-no-progress", std::string(mode) + " " + case_text(data, cuts, ncuts));
+  if (o.stuck && !viol_counted("parser-delivers-request-consuming-nothing-server-loop-never-ends")) viol("parser-delivers-request-consuming-nothing-server-loop-never-ends", std::string(mode) + " " + case_text(data, cuts, ncuts) + " => " + o.str());
+  if (o.under && !viol_counted("parser-delivers-request-consuming-less-than-its-body")) viol("parser-delivers-request-consuming-less-than-its-body", std::string(mode) + " " + case_text(data, cuts, ncuts) + " => " + o.str());
   if (!o.exc.empty()) { if (!viol_counted(exc_sig(o.exc))) viol(exc_sig(o.exc), std::string(mode) + " " + case_text(data, cuts, ncuts) + " => " + o.str()); outcome("exception " + o.exc); }
   else outcome(std::string(o.fail ? "parse-fail" : o.nreq ? "request(s)-delivered" : "waiting-for-more-bytes") + (o.nreq && o.fail ? " after a request" : ""));
 }
@@ -365,6 +374,13 @@ static std::vector<Mut> mutations() {
   for (const char *cl : {"abc", "", " ", "  ", "-1", "-2", "-5", "-0", "+5", "5x", "x5", "0x5", "1e3", "5 5", " 5", "5 ", "05", "\t5", "5\t", "٥", "2147483647", "2147483648", "-2147483648", "-2147483649",
                          "4294967295", "4294967296", "4294967301", "99999999999", "9223372036854775807", "18446744073709551615", "18446744073709551616", "99999999999999999999999999999999", "-", "+", ".", "0.5", "NaN", "0", "1", "4", "6"})
     v.push_back({std::string("content-length-value=") + esc(cl), req(M, " ", T, " ", V, E, H, E, CN, CS, cl, E, E, B)});
+  // hostile numeric values: every negative length from -1 to beyond the size of the head (a wrapped sum lands on every offset inside the head, on its end, and before
+  // its start), signs / zeros / blanks, and both signs around 2^31, 2^32, 2^63, 2^64
+  { size_t head = req(M, " ", T, " ", V, E, H, E, CN, CS, "-00", E, E, "").size();
+    for (size_t n = 1; n <= head + 4; n++) v.push_back({"content-length-negative=" + std::to_string(n), req(M, " ", T, " ", V, E, H, E, CN, CS, "-" + std::to_string(n), E, E, B)});
+    for (const char *cl : {"+0", "00", "-00", "000005", "+05", "- 5", "--5", "+-5", "-+5", "5-", " -5", "-5 ", "2147483643", "2147483652", "-2147483643", "-2147483652", "4294967291", "-4294967291", "-4294967295", "-4294967296", "-4294967301",
+                           "9223372036854775803", "9223372036854775813", "-9223372036854775803", "-9223372036854775808", "-9223372036854775813", "18446744073709551611", "18446744073709551621", "-18446744073709551611", "-18446744073709551615", "-18446744073709551616", "-18446744073709551621"})
+      v.push_back({std::string("content-length-hostile=") + esc(cl), req(M, " ", T, " ", V, E, H, E, CN, CS, cl, E, E, B)}); }
   v.push_back({"content-length-no-colon", req(M, " ", T, " ", V, E, H, E, CN, " ", CV, E, E, B)});
   v.push_back({"content-length-colon-no-space", req(M, " ", T, " ", V, E, H, E, CN, ":", CV, E, E, B)});
   v.push_back({"content-length-colon-no-value", req(M, " ", T, " ", V, E, H, E, CN, ":", "", E, E, B)});
@@ -438,7 +454,11 @@ static int run_mut(long shard, long nshards, int two_cut_max, double deadline) {
       total_check(mode.c_str(), data, nullptr, 0, execs);
       Outcome whole = feed(data, nullptr, 0);
       bool wf = whole.exc.empty() && !whole.fail && !whole.over && !whole.noprogress && whole.rest == 0 && whole.nreq >= 1 && whole.declared;
-      const Outcome *ref = wf ? &whole : nullptr; if (wf) { g_mut_wellformed++; if (std::getenv("C12_MUT_LIST")) printf("@INFO accepted-with-declared-length: %s => %s\n", mode.c_str(), whole.str().substr(0, 200).c_str()); }
+      // hostile Content-Length values: whatever the parser makes of them (reject, wait for ever, deliver) must not depend on the segmentation either
+      bool numeric = m.name.compare(0, 21, "content-length-value=") == 0 || m.name.compare(0, 24, "content-length-negative=") == 0 || m.name.compare(0, 23, "content-length-hostile=") == 0;
+      // (not "-1": stored in the size_t it IS the parser's "no Content-Length" mark, the body is then whatever the segment holds - no declared length, outside the property)
+      if (m.name == "content-length-value=-1" || m.name == "content-length-negative=1") numeric = false;
+      const Outcome *ref = (wf || (numeric && whole.exc.empty() && !whole.over && !whole.noprogress && !whole.stuck)) ? &whole : nullptr; if (wf) { g_mut_wellformed++; if (std::getenv("C12_MUT_LIST")) printf("@INFO accepted-with-declared-length: %s => %s\n", mode.c_str(), whole.str().substr(0, 200).c_str()); }
       size_t L = data.size();
       if (L <= 400) {                                       // every 1-cut and (short inputs) 2-cut split, plus byte-by-byte
         size_t c[2];
